@@ -328,6 +328,17 @@ func (vfNopLogger) Printf(format string, v ...interface{})              {}
 func (vfNopLogger) Println(v ...interface{})                            {}
 func (vfNopLogger) WriteHtml(w io.Writer)                               {}
 
+// development aid (VF_LOG=1): product log lines on stderr
+type vfStderrLogger struct{ vfNopLogger }
+
+func (vfStderrLogger) Printf(format string, v ...interface{}) { fmt.Fprintf(os.Stderr, "LOG "+format+"\n", v...) }
+func (vfStderrLogger) Println(v ...interface{})               { fmt.Fprintln(os.Stderr, append([]interface{}{"LOG"}, v...)...) }
+func (vfStderrLogger) Debugf(level uint8, format string, v ...interface{}) {
+	if level <= 1 {
+		fmt.Fprintf(os.Stderr, "DBG "+format+"\n", v...)
+	}
+}
+
 type vfNopHTTPLogger struct{}
 
 func (vfNopHTTPLogger) Log(record instrumentedwriter.LogRecord) {}
@@ -362,6 +373,9 @@ func (w *vfWorld) build() error {
 
 	// globals of package main
 	logger = vfNopLogger{}
+	if os.Getenv("VF_LOG") != "" {
+		logger = vfStderrLogger{}
+	}
 	eventNotifier = eventnotifier.New(vfNopLogger{})
 	u2fTrustedFacets = nil
 
@@ -369,7 +383,7 @@ func (w *vfWorld) build() error {
 	if err != nil {
 		return err
 	}
-	state, err := loadVerifyConfigFile(cfgFile, vfNopLogger{})
+	state, err := loadVerifyConfigFile(cfgFile, logger)
 	if err != nil {
 		return fmt.Errorf("loadVerifyConfigFile: %w", err)
 	}
